@@ -439,6 +439,15 @@ func c02JSONNumber(c *mon.Ctx, r *rand.Rand) {
 		c02Expect(c, r, node, strconv.FormatFloat(x, 'e', -1, 64), "T", "json-number-float")
 		c02Expect(c, r, node, strconv.FormatFloat(math.Nextafter(x, math.Inf(1)), 'g', -1, 64), "F", "json-number-float")
 	}
+	// hand-built json.Numbers: a json.Number is a DECIMAL number (leading
+	// zeros do not make it octal, a base prefix makes it no number at all)
+	for _, hb := range []struct{ num, lit, want string }{
+		{"010", "10", "T"}, {"010", "8", "F"}, {"-0017", "-17", "T"}, {"-0017", "-15", "F"}, {"0x10", "16", "E"}, {"0b11", "3", "E"}, {"00", "0", "T"}, {"007.50", "7.5", "T"}, {"+5", "5", "T"},
+	} {
+		if r.Intn(3) == 0 {
+			c02Expect(c, r, univ.JSONNum(hb.num), hb.lit, hb.want, "json-number-spelling")
+		}
+	}
 	c.Count("jsonnumber_cases")
 }
 
